@@ -21,7 +21,7 @@ from vlib.core import *
 SRCS = ["harness/c14.cpp"]
 WRAP_SRCS = ["harness/c14_wrap.cpp"]
 REPO_CPP = ["babylon/concurrent/*.cpp"]
-LEAN_MODULES = ["Babylon.IdAlloc.Model", "Babylon.IdAlloc.Box", "Babylon.IdAlloc.Sched", "Babylon.IdAlloc.BoxSched",
+LEAN_MODULES = ["Babylon.IdAlloc.Model", "Babylon.IdAlloc.Box", "Babylon.IdAlloc.Pinned", "Babylon.IdAlloc.Sched", "Babylon.IdAlloc.BoxSched",
                 "Babylon.IdAlloc.Lemmas", "Babylon.IdAlloc.LemmasUse", "Babylon.IdAlloc.BoxLemmas", "Babylon.Properties.C14"]
 
 
@@ -49,8 +49,12 @@ def run(ctx):
         ctx.broke("correspondence", "harness/c14.cpp does not build against /repo", log[-800:])
         return
     n = 400 if ctx.quick else 6000
-    if ctx.broken:
+    nbig = 3 if ctx.quick else 16
+    # a proof / generated obligation that no longer checks ENLARGES the search for a concrete failing input
+    enlarged = bool(ctx.broken)
+    if enlarged:
         n *= 5
+        nbig *= 3
     seed0 = ctx.seed * 1000003
     dist = {"modes": {}, "verdicts": {}, "replay_ok": 0, "replay_diverge": 0, "oracle": 0, "cas_fail_lines": 0, "max_trace": 0}
     distinct = set()
@@ -58,13 +62,20 @@ def run(ctx):
     view = {"VRT_MEM": "view"}
     plan = [("alloc32", n, True, {}), ("alloc16", n, True, {}), ("alloc32", n // 2, True, {"VRT_STRATEGY": "pct"}),
             ("box", n // 2, True, {}), ("box", n // 4, True, {"VRT_STRATEGY": "pct"}), ("threadid", n // 4, False, {}),
+            # tight emplace/take/finish cycles on few slots: allocate()'s CAS retries while another thread completes a
+            # whole round of the slot; stale ids of earlier rounds of the same slot retried after every emplace
+            ("boxhot", n // 2, True, {}), ("boxhot", n // 4, True, {"VRT_STRATEGY": "pct"}),
+            # IdAllocator<uint16_t> with more than 65408 ids (top of the documented range): for_each / end / reuse
+            ("big16", nbig, False, {}),
             # glue around the modelled core: Accessor API of the box, leaky flavour of the per-thread ids (oracle only)
             ("boxacc", n // 4, False, {}), ("leakyid", n // 4, False, {}),
             # weak-memory pass (release/acquire view model, stale loads): oracle only, traces are not SC paths
             ("alloc32", n // 4, False, view), ("alloc16", n // 4, False, view), ("box", n // 4, False, view),
             ("threadid", n // 8, False, view)]
+    ncorr = 0
+    per_key = {}
     for mode, cnt, lockstep, env in plan:
-        runs = ctx.econc(exe, drv if lockstep else None, [mode], seed0, cnt, env=env)
+        runs = ctx.econc(exe, drv if lockstep else None, [mode], seed0, cnt, env=env, **({"chunk": 1} if mode == "big16" else {}))
         tag = mode + ("/pct" if "VRT_STRATEGY" in env else "") + ("/view" if "VRT_MEM" in env else "")
         dist["modes"][tag] = len(runs)
         for r in runs:
@@ -79,25 +90,35 @@ def run(ctx):
             ntakefail = sum(1 for l in r["lines"] if " cas ver" in l and l.split()[-2] == "0")
             dist["cas_fail_lines"] += ncasfail
             dist["take_fail_lines"] = dist.get("take_fail_lines", 0) + ntakefail
-            if ncasfail > 0 or ntakefail > 0 or mode == "threadid" or "VRT_MEM" in env:
+            if ncasfail > 0 or ntakefail > 0 or mode in ("threadid", "leakyid", "boxacc", "big16") or "VRT_MEM" in env:
                 distinct.add(sha("\n".join(l for l in r["lines"] if " ev stats" not in l)))
             text = "mode=%s seed=%d env=%s\n%s" % (mode, r["seed"], env, "\n".join(r["lines"][-400:]))
+            # every run is examined for oracle failures, however many obligations / correspondences are already
+            # broken: a concrete failing input is what the search is for (at most 3 replays are kept per key)
+            key = None
             if r["oracle"]:
                 dist["oracle"] += 1
                 kind = r["oracle"][0].split("ORACLE", 1)[1].split()[0]
-                ctx.failing_input("oracle:%s:%s" % (mode + ("-view" if "VRT_MEM" in env else ""), kind), text)
+                key = "oracle:%s:%s" % (mode + ("-view" if "VRT_MEM" in env else ""), kind)
             elif r["verdict"] != "ok":
-                ctx.failing_input("verdict:%s:%s" % (mode + ("-view" if "VRT_MEM" in env else ""), r["verdict"].split()[0]), text + "\n" + r.get("stderr", ""))
+                key = "verdict:%s:%s" % (mode + ("-view" if "VRT_MEM" in env else ""), r["verdict"].split()[0])
+                text += "\n" + r.get("stderr", "")
             elif lockstep:
                 if r["replay"] and r["replay"].startswith("ok"):
                     dist["replay_ok"] += 1
                 else:
                     dist["replay_diverge"] += 1
-                    ctx.broke("correspondence", "E-CONC lock-step c14 mode=%s seed=%d" % (mode, r["seed"]), "%s\n%s" % (r["replay"], text))
+                    ncorr += 1
+                    if ncorr <= 8:
+                        ctx.broke("correspondence", "E-CONC lock-step c14 mode=%s seed=%d" % (mode, r["seed"]), "%s\n%s" % (r["replay"], text))
+            if key is not None:
+                per_key[key] = per_key.get(key, 0) + 1
+                if per_key[key] <= 3:
+                    ctx.failing_input(key, text)
             if len(samples) < 1 and mode == "alloc32" and len(r["lines"]) > 60:
                 samples.append(r["lines"][:60])
-            if len(ctx.failing) + len(ctx.broken) > 8:
-                break
+    dist["failing_by_key"] = per_key
+    dist["search_enlarged"] = enlarged
     wrap_replay(ctx, dist)
     ctx.cov["distribution"] = dist
     ctx.cov["distinct_nontrivial"] = len(distinct)
@@ -106,7 +127,7 @@ def run(ctx):
                        "prefix of 0-4 emplace/take/finish rounds, then 2-4 threads x 3-8 operations among emplace, take of a published id (newest untaken id so "
                        "that takers race, already-taken ids, stale ids whose slot was reused) and finish, replayed in lock-step against the box model; thread ids: 2-4 waves of 1-4 threads) under one seeded schedule (random with 5 stickiness "
                        "levels, or PCT; a quarter as many again under the release/acquire view memory, oracle only) with spurious weak-CAS failures 1/8; non-trivial = the trace contains at least one failed CAS on the free-list head "
-                       "(threads actually interfered) or, for box runs, also a failed strong CAS on a slot version word (a taker lost), or is a threadid run; "
+                       "(threads actually interfered; boxhot = 3-4 threads x 4-9 emplace/stale-take/take/finish cycles; boxacc = Accessor API incl. self move-assignment and vector compaction; big16 = 65409..65534 ids on a 16-bit allocator) or, for box runs, also a failed strong CAS on a slot version word (a taker lost), or is a threadid run; "
                        "distinct by trace hash")
     ctx.cov["samples"] = samples or [["<no sample>"]]
 
@@ -151,7 +172,7 @@ def replay(ctx, path):
     mode, seed, env = m.group(1), int(m.group(2)), eval(m.group(3))
     exe, log = build_vrt_exe("c14", SRCS, repo_cpp=REPO_CPP)
     drv = ctx.driver("drv_C14")
-    runs = ctx.econc(exe, drv if ((mode.startswith("alloc") or mode == "box") and "VRT_MEM" not in env) else None, [mode], seed, 1, env=env)
+    runs = ctx.econc(exe, drv if ((mode.startswith("alloc") or mode in ("box", "boxhot")) and "VRT_MEM" not in env) else None, [mode], seed, 1, env=env)
     r = runs[0]
     print("\n".join(r["lines"]))
     print("verdict:", r["verdict"], "replay:", r["replay"], "oracle:", r["oracle"])
